@@ -80,3 +80,26 @@ claim('C18', 'Hypothesis-generated path lists/attribute dictionaries/file locati
       'About 3k (quick) / 40k (thorough) cases: files written by wsvg are read back by svg2paths, Document and SaxDocument with the same paths in the same order (absolute d-string relation) and the supplied per-path and svg-level attributes; Document histories keep a model of every added path with its group-transform chain and compare paths() before saving and after reloading with each reader.',
       'Trusts: vp/ref/svgdoc_ref.py transform matrices; attribute values drawn from an XML-safe alphabet; temporary directories created and removed by the check.',
       'DESIGN.md 2/C18')
+
+# additions made after the seeded-change rounds 2-5 (DESIGN.md section 10); appended to the level text by mkmanifest.py
+ADDENDA = {
+    'C02': ' The first spelling is parsed again after an earlier result of the same string was edited in place.',
+    'C03': ' Also: segments that are reversed copies of queried ones or had control points reassigned, copies 1e3..1e9 sizes away from the origin, and integer-coefficient polynomials in four containers.',
+    'C04': ' A quarter of the arcs are obtained by reversed() from the mirror-image description.',
+    'C05': ' Half of the paths under test are derived from an already-queried path (scaled, rotated, translated, reversed) or edited in place after queries; a small no-scipy configuration and loop segments are included; the lengths taken over from the library are bounded by chord polyline and control polygon.',
+    'C06': ' Path cases continue with an edit of the queried path (end/start assignment, replace, append, delete, insert) and compare the path, its reversed copy and its segments with fresh ones.',
+    'C07': ' Half of the cases request an explicit tolerance (1e-3..1e-9 of L); paths are also built through edits after queries and may repeat a segment.',
+    'C08': ' Segments are re-checked after translated/reversed/rotated/in-place reassignment following a first bbox(); paths after moving their end through the Path interface.',
+    'C09': ' Segments under test are also products of reversed() or of an end crop; a no-scipy configuration covers the length clauses on small Bezier paths.',
+    'C10': ' Operands may have a past (queried, reversed twice, translated there and back); matrices include near-identity and integer-typed ones; arcs built with autoscale_radius=False; a non-uniformly scaled arc must be refused or right.',
+    'C11': ' Pairs are also placed 1e3..1e6 sizes from the origin; exactly axis-parallel lines; explicit tol argument; paths with sweep-twin arcs, end-touching configurations and justonemode=True.',
+    'C12': ' Operands with a past (queried / reversed copies), exactly vertical and horizontal lines, arch-shaped and degree-elevated cubics, clockwise arcs of more than 300 degrees.',
+    'C13': ' Segments that are reversed copies of queried ones or were reassigned after queries; exact 2^-10 / 2^-20 copies; loop segments in paths.',
+    'C14': ' Scaling about arbitrary origins with non-dyadic factors, laws on mixed arc/line outlines, exactly vertical/horizontal probes, polygon edges written as degree-elevated Beziers, rounded rectangles with chord lengths around the corner-arc length.',
+    'C15': ' Both numpy error states; transforms through 3x3 matrices and by 2^-30 / 2^20; numpy arrays of parameters must give the per-parameter values.',
+    'C16': ' Tolerance histories inside the quadratic\'s numerically integrated branch; reassignments to hash-colliding values.',
+    'C17': ' Transform lists separated by white space and/or a comma, blank before the parenthesis.',
+    'C18': ' Attribute dictionaries may carry a stale d entry (as svg2paths hands them out).',
+    'C19': ' Pairs of simple roots a few 1e-6 apart on either side of the condition boundary.',
+    'C20': ' Loop cubics, point-symmetric S-curves, segments up to 1000 x maxjointsize, and a small no-scipy configuration.',
+}
